@@ -93,14 +93,7 @@ def asdict(
                     )
                     for i in v
                 ]
-                try:
-                    rv[a.name] = cf(items)
-                except TypeError:
-                    if not issubclass(cf, tuple):
-                        raise
-                    # Workaround for TypeError: cf.__new__() missing 1 required
-                    # positional argument (which appears, for a namedtuple)
-                    rv[a.name] = cf(*items)
+                rv[a.name] = _rebuild_collection(cf, items)
             elif isinstance(v, dict):
                 df = dict_factory
                 rv[a.name] = df(
@@ -129,6 +122,25 @@ def asdict(
         else:
             rv[a.name] = v
     return rv
+
+
+def _rebuild_collection(cf, items):
+    """
+    Create a collection of type *cf* from the list *items*.
+    """
+    if issubclass(cf, tuple) and hasattr(cf, "_fields"):
+        # Namedtuples take their members as separate arguments.  A namedtuple
+        # with a single field would accept the whole list as that field.
+        return cf(*items)
+
+    try:
+        return cf(items)
+    except TypeError:
+        if not issubclass(cf, tuple):
+            raise
+        # Workaround for TypeError: cf.__new__() missing 1 required
+        # positional argument (which appears, for a namedtuple)
+        return cf(*items)
 
 
 def _asdict_anything(
@@ -171,14 +183,7 @@ def _asdict_anything(
             )
             for i in val
         ]
-        try:
-            rv = cf(items)
-        except TypeError:
-            if not issubclass(cf, tuple):
-                raise
-            # Workaround for TypeError: cf.__new__() missing 1 required
-            # positional argument (which appears, for a namedtuple)
-            rv = cf(*items)
+        rv = _rebuild_collection(cf, items)
     elif isinstance(val, dict):
         df = dict_factory
         rv = df(
@@ -286,14 +291,7 @@ def astuple(
                     )
                     for j in v
                 ]
-                try:
-                    rv.append(cf(items))
-                except TypeError:
-                    if not issubclass(cf, tuple):
-                        raise
-                    # Workaround for TypeError: cf.__new__() missing 1 required
-                    # positional argument (which appears, for a namedtuple)
-                    rv.append(cf(*items))
+                rv.append(_rebuild_collection(cf, items))
             elif isinstance(v, dict):
                 df = v.__class__ if retain is True else dict
                 rv.append(
